@@ -54,6 +54,38 @@ func refEncode(parts [][]byte) ([]byte, bool) {
 	return out, true
 }
 
+// freshAolKey returns an empty AOL key of type i (owner, topic, writer, record).
+func freshAolKey(i int) compkey.CompositeKey {
+	switch i {
+	case 0:
+		return &aoltypes.OwnerCompositeKey{}
+	case 1:
+		return &aoltypes.TopicCompositeKey{}
+	case 2:
+		return &aoltypes.WriterCompositeKey{}
+	}
+	return &aoltypes.RecordCompositeKey{}
+}
+
+// checkTypedDecode: decoding arbitrary bytes as AOL key type typ returns an error, or a key
+// that re-encodes to exactly these bytes; it never panics and never drops anything silently.
+func checkTypedDecode(bz []byte, typ int) (msg string, refused bool) {
+	defer func() {
+		if r := recover(); r != nil {
+			msg = fmt.Sprintf("decoding %x as AOL key type %d panicked: %v", bz, typ, r)
+		}
+	}()
+	dst := freshAolKey(typ)
+	if err := compkey.Decode(bz, dst); err != nil {
+		return "", true
+	}
+	re, err := compkey.Encode(dst)
+	if err != nil || !bytes.Equal(re, bz) {
+		return fmt.Sprintf("AOL key type %d accepted %x but holds %q, which encodes to %x: silently truncated", typ, bz, dst.ByteSlices(), re), false
+	}
+	return "", false
+}
+
 func tupleEq(a, b [][]byte) bool {
 	if len(a) != len(b) {
 		return false
@@ -420,6 +452,35 @@ func TestC18AolKeys(t *testing.T) {
 				failPure(rt, "C18", "c18-aolkey", in, "string form %q has the wrong number of separators", s)
 			}
 		}
+		// typed decoding of malformed byte strings: the encoding of a key of another arity, a key
+		// with further well-formed components appended, or a third component of another width is
+		// refused with an error or decodes to a key that re-encodes to exactly these bytes --
+		// never a silent truncation
+		extra := rapid.SampledFrom([][]byte{nil, {}, {0}, owner, writer, []byte(topic), {1, 2, 3}, make([]byte, 9)}).Draw(rt, "extra-component")
+		for j, src := range keys {
+			parts := append([][]byte{}, src.ByteSlices()...)
+			if extra != nil {
+				if rapid.Bool().Draw(rt, fmt.Sprintf("replace-last-%d", j)) && len(parts) > 1 {
+					parts[len(parts)-1] = extra
+				} else {
+					parts = append(parts, extra)
+				}
+			}
+			bz, ok := refEncode(parts)
+			if !ok {
+				continue
+			}
+			for i := range keys {
+				in := map[string]interface{}{"bytes": base64.StdEncoding.EncodeToString(bz), "decoded_as_type": i}
+				msg, refused := checkTypedDecode(bz, i)
+				if msg != "" {
+					failPure(rt, "C18", "c18-aolkey-malformed", in, "%s", msg)
+				}
+				if refused {
+					st.label("typed decode refused a byte string of another shape", 1)
+				}
+			}
+		}
 		// the expected component layout of the specification
 		var be [8]byte
 		for i := 0; i < 8; i++ {
@@ -451,6 +512,22 @@ func init() {
 			t.Fatal(err)
 		}
 		if msg := checkTuplePair(dec(doc.Input.X), dec(doc.Input.Y)); msg != "" {
+			fmt.Printf("REPLAY-VIOLATION property=C18 %s\n", msg)
+			t.Fatalf("violation reproduced: %s", msg)
+		}
+	}
+	otherReplays["c18-aolkey-malformed"] = func(t *testing.T, raw []byte) {
+		var doc struct {
+			Input struct {
+				Bytes string `json:"bytes"`
+				Type  int    `json:"decoded_as_type"`
+			} `json:"input"`
+		}
+		if err := json.Unmarshal(raw, &doc); err != nil {
+			t.Fatal(err)
+		}
+		b, _ := base64.StdEncoding.DecodeString(doc.Input.Bytes)
+		if msg, _ := checkTypedDecode(b, doc.Input.Type); msg != "" {
 			fmt.Printf("REPLAY-VIOLATION property=C18 %s\n", msg)
 			t.Fatalf("violation reproduced: %s", msg)
 		}
